@@ -1,0 +1,36 @@
+//go:build verif
+// +build verif
+
+// Exports for the external verification harness (/verif). Compiled only with -tags verif.
+
+package iterator
+
+import "fmt"
+
+// VerifSourceTag tells which physical source the current entry of a merged / indexed iterator
+// comes from: for a merged iterator the index of the child that currently provides the entry,
+// followed (for an indexed child over an array index, i.e. a level of tables) by the position
+// of the index.  Empty when the iterator is of another kind or not on an entry.
+func VerifSourceTag(it Iterator) string {
+	switch x := it.(type) {
+	case *mergedIterator:
+		if x.err != nil || x.dir <= dirEOI || x.index < 0 || x.index >= len(x.iters) {
+			return ""
+		}
+		return fmt.Sprintf("%d/%s", x.index, VerifSourceTag(x.iters[x.index]))
+	case *indexedIterator:
+		if ai, ok := x.index.(*arrayIteratorIndexer); ok {
+			return fmt.Sprintf("t%d", ai.basicArrayIterator.pos)
+		}
+		return ""
+	}
+	return ""
+}
+
+// VerifMergedChildCount returns the number of children of a merged iterator (-1 otherwise).
+func VerifMergedChildCount(it Iterator) int {
+	if x, ok := it.(*mergedIterator); ok {
+		return len(x.iters)
+	}
+	return -1
+}
